@@ -336,6 +336,14 @@ def run(ctx):
         if o["rule"] in ("R14.9",) or (o["rule"] == "R14.5" and "same-cells" in o["key"]):
             ctx._add(o["status"], "R17.10", o["key"], o["desc"] + " [an out-of-range position panics the consumer thread]", o["where"], o["detail"])
 
+    # ---- R17.15 the sketch has a counter for every position, for *every* size the builder accepts.  R14.9 ties the row length
+    # to modulus/2 and R14.5 the position to `.. % modulus`; what is left is a number: the modulus must be at least 2, else
+    # the rows are empty and the first estimate / increment indexes out of bounds on the worker (consumer) thread.  Decided by
+    # a lower-bound (interval) evaluation of the modulus expression on the symbolic paths of the constructing function, the
+    # size parameter bounded below by what the configuration builder asserts (traced through the constructors that pass it
+    # on); monotone operators only (`| >> + - max / next_power_of_two`), anything else is "unknown" and reported.
+    sketch_bounds(ctx)
+
     # ---- R17.14 a background loop's stop flag starts in the "keep running" state: the thread leaves its loop when the flag it
     # polls reads a certain value; the constructor of the type owning the flag must initialise it to the other value, or the
     # worker ends by itself after its first round
@@ -633,3 +641,204 @@ def provably_positive(F, fn, cond):
         if lb is None or lb < 1:
             return False
     return True
+
+
+# ---- R17.15 -----------------------------------------------------------------------------------------------------------
+UINTS = ("usize", "u64", "u32", "u16", "u8", "u128")
+
+
+def assert_lb(F, f, i):
+    """lower bound that asserts inside f establish for its integer parameter i (`assert!(p > c)`, `assert!(p >= c)`)"""
+    best = None
+    for b in sorted(f.live_blocks()):
+        t = f.term(b)
+        if not (t["k"] == "call" and "panicking::" in t["callee"] and t.get("target") is None):
+            continue
+        g = guarding_branch(f, b)
+        if not g:
+            continue
+        _, e, panics_when = g
+        neg = False
+        while e[0] == "unop" and e[1] == "Not":
+            e, neg = e[2], not neg
+        holds = (not panics_when) != neg          # truth of `e` on the surviving edge
+        if e[0] != "binop" or e[1] not in ("Lt", "Le", "Gt", "Ge"):
+            continue
+        op, x, y = e[1], peel_casts(e[2]), peel_casts(e[3])
+        if op in ("Gt", "Ge"):
+            op, x, y = {"Gt": "Lt", "Ge": "Le"}[op], y, x          # x < y / x <= y
+        if not holds:
+            op, x, y = {"Lt": "Le", "Le": "Lt"}[op], y, x          # !(x < y) = y <= x
+        if y == ("param", i) and x[0] == "const" and isinstance(x[1], int):
+            got = x[1] + 1 if op == "Lt" else x[1]
+            best = got if best is None else max(best, got)
+    return best
+
+
+def peel_casts(e):
+    e = strip_site(e)
+    while isinstance(e, tuple) and e and e[0] == "cast":
+        e = e[1]
+    return e
+
+
+def param_lb(F, f, i, depth=0, seen=None):
+    """lower bound of integer parameter i of f over all its call sites in the crate (and its own asserts)"""
+    seen = seen or set()
+    ty = f.locals[i]["ty"] if i < len(f.locals) else ""
+    floor_ = 0 if ty in UINTS else None
+    own = assert_lb(F, f, i)
+    if own is not None:
+        return own
+    if (f.name, i) in seen or depth > 8:
+        return floor_
+    seen = seen | {(f.name, i)}
+    sites = [(g, t) for g in F.fns.values() for b, t in g.calls() if t.get("rpath") == f.name and len(t["args"]) >= i]
+    if not sites or f.rec.get("reachable"):
+        # callable from outside the crate with any value of its type (only its own asserts bound it)
+        if f.rec.get("reachable"):
+            return floor_
+    bs = []
+    for g, t in sites:
+        bs.append(expr_lb(F, g, g.op_origin(t["args"][i - 1]), depth + 1, seen))
+    if not bs or any(b is None for b in bs):
+        return floor_
+    return min(bs)
+
+
+def field_lb(F, adt, fld, depth, seen):
+    """lower bound of a struct field over every construction of that struct in the crate"""
+    if (adt, fld) in seen or depth > 8:
+        return None
+    seen = seen | {(adt, fld)}
+    bs = []
+    for g in F.fns.values():
+        for b in sorted(g.live_blocks()):
+            for st in g.blocks[b]["stmts"]:
+                if st["k"] == "assign" and st["rv"]["k"] == "agg" and st["rv"].get("adt") == adt:
+                    e = dict(g.origin_rvalue(st["rv"])[3]).get(fld)
+                    bs.append(expr_lb(F, g, e, depth + 1, seen) if e is not None else None)
+    if not bs or any(b is None for b in bs):
+        return None
+    return min(bs)
+
+
+def expr_lb(F, f, e, depth=0, seen=frozenset()):
+    """constant lower bound of an unsigned integer expression (None = unknown)"""
+    e = strip_site(e) if isinstance(e, tuple) else e
+    if not isinstance(e, tuple) or not e or depth > 24:
+        return None
+    k = e[0]
+    if k == "const" and isinstance(e[1], int):
+        return e[1]
+    if k == "cast":
+        return expr_lb(F, f, e[1], depth + 1, seen)
+    if k == "param":
+        return param_lb(F, f, e[1], depth + 1, set(seen))
+    if k == "field" and isinstance(e[1], tuple):
+        # a setting read from a configuration object: bounded by every construction of that object
+        base = e[1]
+        while base[0] in ("cast",):
+            base = base[1]
+        ty = None
+        if base[0] == "param":
+            ty = f.locals[base[1]]["ty"]
+        elif base[0] == "field" and base[1][0] == "param":
+            ty = None
+        if ty:
+            name = ty.lstrip("&").replace("mut ", "").strip().split("<")[0]
+            cands = [a for a in F.adts if a == name or a.endswith("::" + name.split("::")[-1])]
+            if len(cands) == 1:
+                return field_lb(F, cands[0], e[2], depth + 1, set(seen))
+        return None
+    if k == "binop":
+        op, a, b = e[1], e[2], e[3]
+        la, lb = expr_lb(F, f, a, depth + 1, seen), expr_lb(F, f, b, depth + 1, seen)
+        if op in ("Add", "AddUnchecked", "AddWithOverflow"):
+            return la + lb if la is not None and lb is not None else None
+        if op in ("Sub", "SubUnchecked", "SubWithOverflow"):
+            ub = upper_const(F, f, b)
+            if la is None or ub is None or la - ub < 0:
+                return None                     # may wrap below zero: unknown
+            return la - ub
+        if op == "BitOr":
+            return max(la or 0, lb or 0)
+        if op in ("Shr", "ShrUnchecked"):
+            c = upper_const(F, f, b)
+            return (la >> c) if la is not None and c is not None and 0 <= c < 128 else 0
+        if op in ("Shl", "ShlUnchecked"):
+            return la                                # (overflow of the shift is not this rule's concern)
+        if op == "Div":
+            c = upper_const(F, f, b)
+            return la // c if la is not None and c else (0 if c else None)
+        if op in ("Mul", "MulUnchecked", "MulWithOverflow"):
+            return la * lb if la is not None and lb is not None else None
+        if op in ("BitAnd", "Rem"):
+            return 0
+        return None
+    if k == "call":
+        nm, args = e[1], e[2]
+        if (nm.endswith("cmp::Ord::max") or nm.endswith("cmp::max")) and len(args) == 2:
+            bs = [expr_lb(F, f, x, depth + 1, seen) for x in args]
+            ks = [x for x in bs if x is not None]
+            return max(ks) if ks else None
+        if (nm.endswith("cmp::Ord::min") or nm.endswith("cmp::min")) and len(args) == 2:
+            bs = [expr_lb(F, f, x, depth + 1, seen) for x in args]
+            return min(bs) if all(x is not None for x in bs) else None
+        if nm.endswith("::next_power_of_two") and len(args) == 1:
+            la = expr_lb(F, f, args[0], depth + 1, seen)
+            return max(la or 0, 1)
+        if nm.endswith("::clamp") and len(args) == 3:
+            return expr_lb(F, f, args[1], depth + 1, seen)
+        if nm.endswith("::saturating_sub") and len(args) == 2:
+            la, ub = expr_lb(F, f, args[0], depth + 1, seen), upper_const(F, f, args[1])
+            return max(la - ub, 0) if la is not None and ub is not None else 0
+        if nm.endswith(("::saturating_add", "::wrapping_add")) and len(args) == 2 and nm.endswith("::saturating_add"):
+            la, lb = expr_lb(F, f, args[0], depth + 1, seen), expr_lb(F, f, args[1], depth + 1, seen)
+            return la + lb if la is not None and lb is not None else None
+        return None
+    if k == "phi":
+        bs = [expr_lb(F, f, x, depth + 1, seen) for x in e[1]]
+        return min(bs) if bs and all(x is not None for x in bs) else None
+    return None
+
+
+def sketch_bounds(ctx):
+    from sym import ipaths
+    F = ctx.facts
+    rows = [n for n, a in F.adts.items() if a["kind"] == "Struct" and len(a["variants"][0]["fields"]) == 1 and a["variants"][0]["fields"][0]["ty"].startswith("std::vec::Vec<u8")]
+    n_cons = 0
+    for row in rows:
+        short = row.split("::")[-1]
+        for skn, a in sorted(F.adts.items()):
+            if a["kind"] != "Struct" or skn == row:
+                continue
+            flds = a["variants"][0]["fields"]
+            mat_f = [fl["name"] for fl in flds if short in fl["ty"]]
+            mod_f = [fl["name"] for fl in flds if fl["ty"] == "u64"]
+            if len(mat_f) != 1 or len(mod_f) != 1:
+                continue
+            for n_, g in sorted(F.fns.items()):
+                if g.kind == "Closure" or not any(st["k"] == "assign" and st["rv"]["k"] == "agg" and st["rv"].get("adt") == skn for b in g.live_blocks() for st in g.blocks[b]["stmts"]):
+                    continue
+                ctx.touch(g)
+                worst, shown, n_paths = None, "", 0
+                for p in ipaths(F, g, stop=lambda n: False, depth=3):
+                    r = p.ret
+                    if not (r[0] == "agg" and r[1] == skn):
+                        continue
+                    T = dict(r[3]).get(mod_f[0])
+                    if T is None:
+                        continue
+                    n_paths += 1
+                    lb = expr_lb(F, g, T)
+                    if worst is None or (lb if lb is not None else -1) < worst:
+                        worst, shown = (lb if lb is not None else -1), fmt(T)[:160]
+                if not n_paths:
+                    continue
+                n_cons += 1
+                ctx.check(worst is not None and worst >= 2, "R17.15", "%s|modulus-at-least-two" % n_,
+                          "the position modulus of the sketch is at least 2 for every size the builder accepts, so a row of modulus/2 bytes (R14.9) is never empty and `(hash % modulus)/2` (R14.1, R14.5) is in bounds",
+                          g.where(), "lower bound of the modulus over all accepted sizes: %s (%s)%s" % ("unknown" if worst == -1 else worst, shown,
+                          "; with the smallest accepted size the rows are empty: the first estimate or increment panics the command worker / the access consumer" if worst is not None and worst < 2 else ""))
+    ctx.floor("R17.15", "sketch constructions with a position modulus", n_cons, 1)
